@@ -650,7 +650,7 @@ func (c *FnCtx) evalCall(env *Env, x *ECall) Val {
 		}
 		ne := *env
 		ne.names = map[string]Val{}
-		ne.bound = env.bound
+		ne.bound = map[string]Val{}
 		ne.specPkg = pf.Pkg
 		ne.fr = nil
 		ne.loop = nil
